@@ -444,8 +444,9 @@ for _k, _v in ADDENDA12.items():
     CLAIMS[_k]["text"] = CLAIMS[_k]["text"].rstrip() + " " + _v
 
 ADDENDA13 = {
-    "C01": "Round 14: the truth of a call's result is taken under a test on the node's position only.",
-    "C07": "Round 14: None in a membership list is translated with IS NULL / IS NOT NULL.",
+    "C01": "Round 14: the truth of a call's result is taken under a test on the node's position only; a recursion that threads bindings hands on bindings derived from the result at hand on every path.",
+    "C02": "Round 14: shares EP-THREAD.",
+    "C07": "Round 14: None in a membership list is translated with IS NULL / IS NOT NULL; the value of a literal is handed to the translator whole (a collection of one member stays a collection).",
     "C10": "Round 14: STREAM-LAZY also judges the functions that hand a parameter on to the lazy wrapper.",
     "C11": "Round 14: whether a nested match needs its type filter is decided from the pattern, not read from module-level state.",
     "C12": "Round 14: the truth of a call's result is taken under a test on the node's position only.",
